@@ -94,6 +94,9 @@ func c06Replay(class string, raw json.RawMessage) (bool, string) {
 	if strings.HasPrefix(class, "poisoned/") {
 		return poisonReplay("C06", raw)
 	}
+	if strings.HasPrefix(class, "saturated-histories/") {
+		return saturatedReplay("C06", raw)
+	}
 	if strings.HasPrefix(class, "stop/") {
 		var c c06StopCase
 		if err := json.Unmarshal(raw, &c); err != nil {
@@ -339,6 +342,10 @@ func runC06(r *ev.Run) {
 
 	// (b) the stop channel observed closed at the i-th poll for EVERY i (instrumented fault-plan run:
 	// reaches the polls after a child returns, in the quiescence loop and at the root)
+	searches.Add(deepSweep(r, "C06"))
+	sat := saturatedSweep(r, "C06", roots)
+	r.Set("saturated_history_searches", sat)
+	searches.Add(sat)
 	pz := poisonSweep(r, "C06")
 	r.Set("poisoned_table_searches", pz)
 	searches.Add(pz)
@@ -361,7 +368,7 @@ func runC06(r *ev.Run) {
 	r.Set("abort_points", abortPoints.Load())
 	r.Set("uci_go_commands", uciN)
 	r.Set("distinct_outcomes", map[string]int64{"final_roots": finals.Load(), "null_move_returned": nullReturns.Load(), "aborted_before_first_iteration_completed": fallbacks.Load()})
-	r.Set("rule", "roots (constructed special roots incl. in-check, single-reply, promotion, clocks 98/99/100, mates, stalemates; histories with second and third occurrences; perft and bench roots) x depth x table size; abort points: hard node budget k for every k in [0, nodes of the full search]+1 (strided beyond the cap, dense at both ends), the soft node limit at every iteration boundary, the stop channel closed at every poll and soft time limits on a virtual clock (instrumented fault plans), the same budgets on a never-cleared instance; poisoned tables (the entry of the root or of a position one move below it holds an arbitrary move encoding, every from/to pair); every position of a 3-man class with budgets {none,0,1,5,17}; `go` through a real driver with numeric edge arguments; oracle: move null or legal, null only on final roots, completed search on a final root returns (0,0) or (0,-Inf), board snapshot unchanged, nodes <= budget, a second search on the same instance obeys the same; non-trivial = aborted searches")
+	r.Set("rule", "roots (constructed special roots incl. in-check, single-reply, promotion, clocks 98/99/100, mates, stalemates; histories with second and third occurrences; perft and bench roots) x depth x table size; abort points: hard node budget k for every k in [0, nodes of the full search]+1 (strided beyond the cap, dense at both ends), the soft node limit at every iteration boundary, the stop channel closed at every poll and soft time limits on a virtual clock (instrumented fault plans), the same budgets on a never-cleared instance; very deep searches of simple endings; every root with the history tables saturated upwards / downwards / alternately by real FailHigh calls; poisoned tables (the entry of the root or of a position one move below it holds an arbitrary move encoding, every from/to pair); every position of a 3-man class with budgets {none,0,1,5,17}; `go` through a real driver with numeric edge arguments; oracle: move null or legal, null only on final roots, completed search on a final root returns (0,0) or (0,-Inf), board snapshot unchanged, nodes <= budget, a second search on the same instance obeys the same; non-trivial = aborted searches")
 	r.Set("exhaustive", false)
 	r.Assume("abort by the stop channel at every poll is enumerated by the instrumented fault-plan run (see C06 stop sweep in evidence when the instrumented binary is available); hard node budgets reach the polls at node entry only")
 }
